@@ -181,6 +181,13 @@ func (v array_[V]) SetValues(index int, values Sequential[V]) {
 	var size = values.GetSize()
 	var first = v.toZeroBased(index)
 	var last = v.toZeroBased(index+size-1) + 1
+	if last-first != size {
+		// A negative index whose range runs past the end wraps around to the front.
+		panic(fmt.Sprintf(
+			"The specified index range is outside the bounds of the array: %v values starting at index %v",
+			size,
+			index))
+	}
 	copy(v[first:last], values.AsArray())
 }
 
